@@ -87,8 +87,8 @@ pub fn show_lines<S: AsRef<str>>(v: &[S]) -> String {
 // Generator of multi-line texts with margins (C18, C19).
 
 const MARGIN_CH: &[(u32, &str)] = &[
-    (6, " "),
-    (3, "\t"),
+    (12, " "),
+    (6, "\t"),
     (1, "\u{a0}"),
     (1, "\u{2003}"),
     (1, "\u{c}"),
@@ -101,6 +101,20 @@ const MARGIN_CH: &[(u32, &str)] = &[
     (1, "\u{3000}"),
     (1, "\u{1680}"),
     (1, "\u{b}"),
+    // the remaining White_Space code points (25 in all; LF cannot be part of
+    // a margin)
+    (1, "\u{2000}"),
+    (1, "\u{2001}"),
+    (1, "\u{2004}"),
+    (1, "\u{2005}"),
+    (1, "\u{2006}"),
+    (1, "\u{2007}"),
+    (1, "\u{2008}"),
+    (1, "\u{200a}"),
+    (1, "\u{2028}"),
+    (1, "\u{2029}"),
+    (1, "\u{202f}"),
+    (1, "\u{205f}"),
 ];
 
 const CONTENT: &[(u32, &str)] = &[
